@@ -10,3 +10,25 @@ Proof. intros []; reflexivity. Qed.
 
 Lemma bridge_wiring : gen_wiring = model_wiring.
 Proof. reflexivity. Qed.
+
+Lemma bridge_sow_combos_sites : gen_sow_combos_sites = model_sow_combos_sites.
+Proof. reflexivity. Qed.
+Lemma bridge_sow_cases_sites : gen_sow_cases_sites = model_sow_cases_sites.
+Proof. reflexivity. Qed.
+
+(* consistent sites denote one description *)
+Lemma dterm_eqb_eq a : forall b, dterm_eqb a b = true -> a = b.
+Proof.
+  induction a as [|a IH|a IH|]; intros [|b|b|] H; cbn in H; try discriminate; try reflexivity;
+    f_equal; apply IH; exact H.
+Qed.
+Lemma consistent_one_description s :
+  descr_consistent s = true ->
+  ds_saved_combos s = ds_run_combos s /\ ds_saved_cases s = ds_run_cases s
+  /\ ds_batch_combos s = ds_run_combos s /\ ds_batch_cases s = ds_run_cases s.
+Proof.
+  unfold descr_consistent. intros H.
+  apply Bool.andb_true_iff in H as [H H4]. apply Bool.andb_true_iff in H as [H H3].
+  apply Bool.andb_true_iff in H as [H1 H2].
+  repeat split; apply dterm_eqb_eq; assumption.
+Qed.
